@@ -23,6 +23,10 @@ type LocalAssignStmt struct {
 
 	Names []string
 	Exprs []Expr
+	// IsFunction is true for `local function name ... end`, whose body
+	// refers to the new local; in `local name = function ... end` the body
+	// refers to whatever name denoted before the statement.
+	IsFunction bool
 }
 
 type FuncCallStmt struct {
